@@ -468,7 +468,7 @@ fn tier_cfg(prop: &str, tier: &str) -> TierCfg {
     let thorough = tier == "thorough";
     let (runs, store) = match prop {
         "C13" => (if thorough { 900_000 } else { 24_000 }, if thorough { 3_000_000 } else { 80_000 }),
-        "C14" => (if thorough { 300_000 } else { 12_000 }, 0),
+        "C14" => (if thorough { 400_000 } else { 20_000 }, 0),
         "C15" => (if thorough { 140_000 } else { 7_000 }, 0),
         "C16" => (if thorough { 400_000 } else { 14_000 }, 0),
         _ => (if thorough { 150_000 } else { 7_000 }, if thorough { 4_000_000 } else { 200_000 }),
